@@ -307,6 +307,7 @@ func runC04(r *Run, rng *rand.Rand, thorough bool) {
 	}
 	reshareHoldRuns(r, rng)
 	blameCorrespondenceRs(r, rng, thorough)
+	blameCorrespondenceRsEcShares(r, rng, thorough)
 	// one old member, in each position, reshares a consistent-but-different key
 	for dev := 0; dev < 3; dev++ {
 		reshareShiftedKey(r, rng, "ed", dev)
